@@ -441,6 +441,76 @@ func genSpecs(r *rand.Rand, thorough bool) []*Spec {
 		s.Op, s.User = "Sent", users[0]
 		out = append(out, s)
 	}
+	// topics that begin with the transports' own word ("frugal."), next to live
+	// subscriptions on the remainder topic (nested.go): 2-3 live subscriptions
+	// on topics of one family T / frugal.T / frugal.frugal.T, valid publishes
+	// interleaved on all of them, the first subscription unsubscribed mid-way
+	nNested := 15
+	if thorough {
+		nNested = 150
+	}
+	for i := 0; i < nNested; i++ {
+		s := &Spec{Idx: len(out), Seed: r.Int63(), Mode: "nested", QueueLen: 1 + r.Intn(64), Proto: rig.Protocols[i%3]}
+		if i%5 == 4 {
+			s.Broker, s.Factory, s.Workers = "stomp", "builder", 1
+			s.StompPrefix = []string{"", transportWord + ".", "pre."}[(i/5)%3]
+		} else {
+			c := natsCfg[(i-i/5)%len(natsCfg)]
+			s.Broker, s.Factory, s.Workers = "nats", c.f, c.w
+		}
+		u := genUser(r)
+		v := u
+		for v == u || strings.EqualFold(u, transportWord) || strings.EqualFold(v, transportWord) {
+			u, v = genUser(r), genUser(r)
+		}
+		twin := []string{"Frugal", "FRUGAL", "frugal_", "fruga", "frugal-"}[r.Intn(5)]
+		switch i % 6 {
+		case 0:
+			s.Subs = []SubSpec{{"NestLogA", ""}, {"NestLogB", ""}}
+		case 1:
+			s.Subs = []SubSpec{{"NestEvtA", transportWord}, {"NestEvtB", ""}, {"NestEvtA", u}}
+		case 2:
+			s.Subs = []SubSpec{{"NestBoxA", u}, {"NestBoxB", u}, {"NestBoxB", v}}
+		case 3:
+			s.Subs = []SubSpec{{"NestBoxA", transportWord}, {"NestBoxB", transportWord}, {"NestBoxA", u}}
+		case 4:
+			s.Subs = []SubSpec{{"NestEvtA", twin}, {"NestEvtA", transportWord}, {"NestEvtB", ""}}
+		default:
+			s.Subs = []SubSpec{{"NestLogB", ""}, {"NestLogA", ""}, {"NestEvtA", transportWord}}
+		}
+		// which subscription is the one unsubscribed mid-way
+		r.Shuffle(len(s.Subs), func(a, b int) { s.Subs[a], s.Subs[b] = s.Subs[b], s.Subs[a] })
+		s.Op, s.User = s.Subs[0].Op, s.Subs[0].User
+		s.N = 30 + r.Intn(90)
+		s.K = 4 + r.Intn(12)
+		out = append(out, s)
+	}
+	// the ordinary two-subscriber sequences (malformed / foreign / Unsubscribe)
+	// on topics of that family
+	nNestedSeq := 6
+	if thorough {
+		nNestedSeq = 60
+	}
+	for i := 0; i < nNestedSeq; i++ {
+		s := &Spec{Idx: len(out), Seed: r.Int63(), Op: nestedOps[i%len(nestedOps)], QueueLen: 64, Proto: rig.Protocols[r.Intn(3)]}
+		s.User = transportWord
+		if s.Op != "NestEvtA" && (i/len(nestedOps))%2 == 1 {
+			s.User = genUser(r)
+		}
+		if i%3 == 2 {
+			s.Broker, s.Factory, s.Workers = "stomp", "builder", 1
+			s.StompPrefix = []string{"", transportWord + "."}[r.Intn(2)]
+		} else {
+			s.Broker, s.Factory, s.Workers = "nats", "builder", []int{1, 2, 4}[r.Intn(3)]
+		}
+		s.N = 20 + r.Intn(60)
+		if r.Intn(2) == 0 {
+			s.Kinds = []string{pick(r, malformedKinds)}
+		}
+		s.Foreign = true
+		s.K = 3 + r.Intn(6)
+		out = append(out, s)
+	}
 	return out
 }
 
@@ -639,7 +709,7 @@ func (m *monitor) raceSample(specs []*Spec) {
 
 func parent() int {
 	run := ev.New("C07", ev.ArgTier(), "exploration")
-	run.Rule("one case = one sequence: (broker nats|stomp, protocol, subscriber factory and worker count, scope operation, prefix variable value, 50-2000 interleaved steps of valid publishes through the emitted publisher / malformed raw publishes of 0-3 kinds on the same subject / foreign-topic publishes, about 1 valid message in 40 with more than 64 KiB of FContext headers (one 70 KiB value or 50 x 4 KiB), in a third of the sequences a rejected second Subscribe on A's own transport before the traffic starts, optional in-flight burst at Unsubscribe with a slow handler, k publishes after Unsubscribe returned); judged on the invocation logs of two emitted subscribers (A unsubscribed mid-way, B subscribed throughout); plus sequences on the oddly named scopes of fixtures/c07scopes.frugal (user_events, Api, http_url_Id, alerts, Id_map) and shared-provider sequences (2-3 live subscriptions on different topics through ONE scope provider / subscriber transport factory, valid publishes interleaved on all topics, each log must hold exactly its own topic's messages, the first subscription unsubscribed mid-way) concurrent-publisher sequences (4 goroutines publish 1500-2999 messages each at the same time through ONE emitted publisher, goroutine i to topic i = other prefix-variable value / other operation; one single-worker subscriber per topic on another connection; exactly once, own topic only, per-topic order), NATS prompt sequences (subscriber's connection behind a relay that delays client->server bytes by 20-59 ms without dropping or reordering, publisher on its own connection, first 5 publishes immediately after Subscribe returned nil) and STOMP backpressure sequences (handler held at its first invocation while a burst of 45-104 messages arrives, 20 frames published through the subscriber's own connection, handler released: everything must still be delivered once; a stall is decided from the goroutine dump: processMessages parked in the ACK send, go-stomp's processLoop and Subscription.readLoop parked on the full Subscription.C); end of stream = sentinel seen by a raw tap subscriber, then by the emitted subscribers or their worker goroutines established dead / idle from a goroutine dump; distinct = (broker, protocol, factory, workers, operation, malformed-kind set, foreign/in-flight/slow/inject/prefix flags); the list is a pure function of (seed, tier)")
+	run.Rule("one case = one sequence: (broker nats|stomp, protocol, subscriber factory and worker count, scope operation, prefix variable value, 50-2000 interleaved steps of valid publishes through the emitted publisher / malformed raw publishes of 0-3 kinds on the same subject / foreign-topic publishes, about 1 valid message in 40 with more than 64 KiB of FContext headers (one 70 KiB value or 50 x 4 KiB), in a third of the sequences a rejected second Subscribe on A's own transport before the traffic starts, optional in-flight burst at Unsubscribe with a slow handler, k publishes after Unsubscribe returned); judged on the invocation logs of two emitted subscribers (A unsubscribed mid-way, B subscribed throughout); plus sequences on the oddly named scopes of fixtures/c07scopes.frugal (user_events, Api, http_url_Id, alerts, Id_map) and shared-provider sequences (2-3 live subscriptions on different topics through ONE scope provider / subscriber transport factory, valid publishes interleaved on all topics, each log must hold exactly its own topic's messages, the first subscription unsubscribed mid-way) frugal-word-topic sequences (2-3 live subscriptions on topics of one family T / frugal.T / frugal.frugal.T - IDL prefix 'frugal', 'frugal.{env}', or a leading prefix variable whose value is 'frugal', next to the same scope and operation without that prefix (harness/c07/idl) - valid publishes interleaved on all of them through the emitted publishers: each log must hold exactly its own topic's messages; on NATS 'routed' is counted by a wildcard tap so that a message sent on another subject than its topic's is still seen; plus ordinary two-subscriber sequences on those topics, with the foreign kind transport-word-topic = the subscribed topic with one more / one less leading 'frugal.' in every sequence with foreign messages), concurrent-publisher sequences (4 goroutines publish 1500-2999 messages each at the same time through ONE emitted publisher, goroutine i to topic i = other prefix-variable value / other operation; one single-worker subscriber per topic on another connection; exactly once, own topic only, per-topic order), NATS prompt sequences (subscriber's connection behind a relay that delays client->server bytes by 20-59 ms without dropping or reordering, publisher on its own connection, first 5 publishes immediately after Subscribe returned nil) and STOMP backpressure sequences (handler held at its first invocation while a burst of 45-104 messages arrives, 20 frames published through the subscriber's own connection, handler released: everything must still be delivered once; a stall is decided from the goroutine dump: processMessages parked in the ACK send, go-stomp's processLoop and Subscription.readLoop parked on the full Subscription.C); end of stream = sentinel seen by a raw tap subscriber, then by the emitted subscribers or their worker goroutines established dead / idle from a goroutine dump; distinct = (broker, protocol, factory, workers, operation, malformed-kind set, foreign/in-flight/slow/inject/prefix flags); the list is a pure function of (seed, tier)")
 	run.Assume("embedded nats-server v2.10.11 and nats.go deliver one connection's publishes on a subject in order to every subscriber, and nothing after UNSUB was processed by the client")
 	run.Assume("the rig's STOMP 1.2 broker (rig/stomp_broker.go, tested against the go-stomp client) fans out per destination in SEND order, exact destination match, no redelivery of un-acked messages, RECEIPT for every frame that asks")
 	run.Assume("'subscribed' starts when Subscribe has returned AND the broker has the subscription (go-stomp's Subscribe does not wait for the broker; the monitor waits on the broker's own table)")
